@@ -62,14 +62,18 @@ GSpec == GInit /\ [][GNext]_gvars
 \* seam level: the same environment actions, enabled only when the SDK is quiescent (named so that
 \* `-dump dot,actionlabels` labels every edge with the action and its arguments)
 Quiet == ~SdkEnabled
-SPost(s, r, g) == Quiet /\ EPost(s, r, g)
+\* generated scripts hold at most two gates at a time (every further hold multiplies the interleavings the
+\* strict trace validation has to explore when they are opened together)
+HeldCount == Cardinality({p \in Sess \X Origins : wr[p[1]][p[2]].held}) + Cardinality({e \in Exch : x[e].held})
+GateOK(g) == g => HeldCount < 2
+SPost(s, r, g) == Quiet /\ GateOK(g) /\ EPost(s, r, g)
 SBcast(s, r) == Quiet /\ EBcast(s, r)
-SEmit(s, r, g) == Quiet /\ EEmit(s, r, g)
-SSreq(s, r, g) == Quiet /\ ESreq(s, r, g)
+SEmit(s, r, g) == Quiet /\ GateOK(g) /\ EEmit(s, r, g)
+SSreq(s, r, g) == Quiet /\ GateOK(g) /\ ESreq(s, r, g)
 SAns(s, r) == Quiet /\ EAns(s, r)
-SRet(s, r, g) == Quiet /\ ERet(s, r, g)
-SSa(s, g) == Quiet /\ ESa(s, g)
-SGet(g, s, t, i, hg) == Quiet /\ GetOrder(g) /\ EGet(g, s, t, i, hg)
+SRet(s, r, g) == Quiet /\ GateOK(g) /\ ERet(s, r, g)
+SSa(s, g) == Quiet /\ GateOK(g) /\ ESa(s, g)
+SGet(g, s, t, i, hg) == Quiet /\ GateOK(hg) /\ GetOrder(g) /\ EGet(g, s, t, i, hg)
 SCut(e) == Quiet /\ ECut(e)
 SDel(s) == Quiet /\ EDel(s)
 SOpen == Quiet /\ EOpen
